@@ -255,3 +255,90 @@ theorem numbersInRangeMembers_of_canonM (cfg : Cfg) : ∀ (ms : List (List StrIt
 end
 
 end SJ.Proofs.RoundTrip
+
+/-! ## consequences of the representation invariant used by the composition -/
+namespace SJ.Proofs.RoundTrip
+open SJ SJ.Spec.Image SJ.Spec.Program SJ.Spec.WF
+
+mutual
+theorem valueLitsOK_of_shapeOK (c : Spec.Canon.Cfg) : ∀ v : JV, shapeOK c v = true → valueLitsOK v = true
+  | .null, _ => rfl
+  | .bool _, _ => rfl
+  | .num (.pos _), _ => rfl
+  | .num (.neg _), _ => rfl
+  | .num (.float _), _ => rfl
+  | .num (.lit s), h => by
+    simp only [shapeOK, wfNum, Bool.and_eq_true] at h
+    simpa [valueLitsOK] using h.2
+  | .str _, _ => rfl
+  | .arr xs, h => by simp only [shapeOK] at h; simp only [valueLitsOK]; exact valuesLitsOK_of_shapeOKs c xs h
+  | .obj kvs, h => by
+    simp only [shapeOK, Bool.and_eq_true] at h; simp only [valueLitsOK]; exact membersLitsOK_of_shapeOKm c kvs h.2
+theorem valuesLitsOK_of_shapeOKs (c : Spec.Canon.Cfg) : ∀ xs : List JV, shapeOKs c xs = true → valuesLitsOK xs = true
+  | [], _ => rfl
+  | x :: xs, h => by
+    simp only [shapeOKs, Bool.and_eq_true] at h
+    simp [valuesLitsOK, valueLitsOK_of_shapeOK c x h.1, valuesLitsOK_of_shapeOKs c xs h.2]
+theorem membersLitsOK_of_shapeOKm (c : Spec.Canon.Cfg) : ∀ kvs : List (Bytes × JV), shapeOKm c kvs = true → membersLitsOK kvs = true
+  | [], _ => rfl
+  | (_, x) :: kvs, h => by
+    simp only [shapeOKm, Bool.and_eq_true] at h
+    simp [membersLitsOK, valueLitsOK_of_shapeOK c x h.1.2, membersLitsOK_of_shapeOKm c kvs h.2]
+end
+
+mutual
+/-- if the printer/parser pair returns every finite double, it returns those of a well-formed value -/
+theorem floatsRT_of_all (c : Spec.Canon.Cfg) (ext : Ext) (hall : ∀ b, finite64 b = true → floatRT c ext b = true) :
+    ∀ v : JV, shapeOK c v = true → floatsRT c ext v = true
+  | .null, _ => rfl
+  | .bool _, _ => rfl
+  | .num (.pos _), _ => rfl
+  | .num (.neg _), _ => rfl
+  | .num (.float b), h => by
+    simp only [shapeOK, wfNum, Bool.and_eq_true] at h
+    simp only [floatsRT]; exact hall b h.2
+  | .num (.lit _), _ => rfl
+  | .str _, _ => rfl
+  | .arr xs, h => by simp only [shapeOK] at h; simp only [floatsRT]; exact floatsRTs_of_all c ext hall xs h
+  | .obj kvs, h => by
+    simp only [shapeOK, Bool.and_eq_true] at h; simp only [floatsRT]; exact floatsRTm_of_all c ext hall kvs h.2
+theorem floatsRTs_of_all (c : Spec.Canon.Cfg) (ext : Ext) (hall : ∀ b, finite64 b = true → floatRT c ext b = true) :
+    ∀ xs : List JV, shapeOKs c xs = true → floatsRTs c ext xs = true
+  | [], _ => rfl
+  | x :: xs, h => by
+    simp only [shapeOKs, Bool.and_eq_true] at h
+    simp [floatsRTs, floatsRT_of_all c ext hall x h.1, floatsRTs_of_all c ext hall xs h.2]
+theorem floatsRTm_of_all (c : Spec.Canon.Cfg) (ext : Ext) (hall : ∀ b, finite64 b = true → floatRT c ext b = true) :
+    ∀ kvs : List (Bytes × JV), shapeOKm c kvs = true → floatsRTm c ext kvs = true
+  | [], _ => rfl
+  | (_, x) :: kvs, h => by
+    simp only [shapeOKm, Bool.and_eq_true] at h
+    simp [floatsRTm, floatsRT_of_all c ext hall x h.1.2, floatsRTm_of_all c ext hall kvs h.2]
+end
+
+mutual
+/-- under `arbitrary_precision` a well-formed value holds literals only: no `Float` -/
+theorem noFloat_of_ap (c : Spec.Canon.Cfg) (hap : c.ap = true) : ∀ v : JV, shapeOK c v = true → noFloat v = true
+  | .null, _ => rfl
+  | .bool _, _ => rfl
+  | .num (.pos _), _ => rfl
+  | .num (.neg _), _ => rfl
+  | .num (.float b), h => by simp [shapeOK, wfNum, hap] at h
+  | .num (.lit _), _ => rfl
+  | .str _, _ => rfl
+  | .arr xs, h => by simp only [shapeOK] at h; simp only [noFloat]; exact noFloats_of_ap c hap xs h
+  | .obj kvs, h => by
+    simp only [shapeOK, Bool.and_eq_true] at h; simp only [noFloat]; exact noFloatm_of_ap c hap kvs h.2
+theorem noFloats_of_ap (c : Spec.Canon.Cfg) (hap : c.ap = true) : ∀ xs : List JV, shapeOKs c xs = true → noFloats xs = true
+  | [], _ => rfl
+  | x :: xs, h => by
+    simp only [shapeOKs, Bool.and_eq_true] at h
+    simp [noFloats, noFloat_of_ap c hap x h.1, noFloats_of_ap c hap xs h.2]
+theorem noFloatm_of_ap (c : Spec.Canon.Cfg) (hap : c.ap = true) : ∀ kvs : List (Bytes × JV), shapeOKm c kvs = true → noFloatm kvs = true
+  | [], _ => rfl
+  | (_, x) :: kvs, h => by
+    simp only [shapeOKm, Bool.and_eq_true] at h
+    simp [noFloatm, noFloat_of_ap c hap x h.1.2, noFloatm_of_ap c hap kvs h.2]
+end
+
+end SJ.Proofs.RoundTrip
